@@ -49,6 +49,11 @@ def cases(draw):
         # a C++ symbol in an annotation: the name itself contains '<', '>' and blanks (objdump -C)
         edits.append({"kind": "annot-alter", "where": draw(st.integers(0, 10**6)), "name": draw(st.sampled_from(["operator>>", "std::vector<int>::at(unsigned long)", "a<b>::c", "T<U>", "std::map<K, V>::find"])),
                       "n": draw(st.integers(0, 12)), "hex": "00000000000000"})
+    if draw(st.integers(0, 3)) == 0:
+        # the name of a PLT stub in an annotation (`call 1030 <puts@plt>`): what a linked program's listing is full of
+        for _ in range(draw(st.integers(1, 3))):
+            edits.append({"kind": "annot-alter", "where": draw(st.integers(0, 10**6)), "name": draw(st.sampled_from(["puts@plt", "f@plt", "__cxa_finalize@plt", "memcpy@plt+0x4", "*ABS*+0x1030@plt"])),
+                          "n": draw(st.integers(0, 12)), "hex": "00000000000000"})
     return {"base": base, "edits": edits, "pick": draw(st.integers(0, 10**6))}
 
 
